@@ -674,6 +674,98 @@ func ruleSelKey(r *Run) {
 	})
 	if n == 0 {
 		r.bad("(*state).appendHandler/selector-key", ah.Pos(), "appendHandler never consults the service-config rules")
+		return
+	}
+	// … on every way to a successful registration. A test that skips the lookup for an "empty" configuration is
+	// accepted only if it reads every container of the selector that setRules fills (a bare "*" rule lives in the
+	// root's rules, not under path: a test of path alone takes such a configuration for empty)
+	rs := p.NamedType("ruleSelector")
+	var containers []*types.Var
+	if rs != nil {
+		if st, ok := rs.Underlying().(*types.Struct); ok {
+			for i := 0; i < st.NumFields(); i++ {
+				switch st.Field(i).Type().Underlying().(type) {
+				case *types.Map, *types.Slice:
+					containers = append(containers, st.Field(i))
+				}
+			}
+		}
+	}
+	readsAll := func(cond ssa.Value) bool {
+		read := map[*types.Var]bool{}
+		var fns []*ssa.Function
+		seenV := map[ssa.Value]bool{}
+		var walk func(v ssa.Value, depth int)
+		walk = func(v ssa.Value, depth int) {
+			if v == nil || seenV[v] || depth > 8 {
+				return
+			}
+			seenV[v] = true
+			if f := loadedField(v); f != nil {
+				read[f] = true
+			}
+			if c, ok := v.(*ssa.Call); ok {
+				if callee := c.Call.StaticCallee(); callee != nil && p.InModule(callee) {
+					fns = append(fns, callee)
+				}
+			}
+			if in, ok := v.(ssa.Instruction); ok {
+				for _, op := range in.Operands(nil) {
+					if op != nil && *op != nil {
+						walk(*op, depth+1)
+					}
+				}
+			}
+		}
+		walk(cond, 0)
+		for _, f := range fns {
+			p.eachInstrRegion(f, func(_ *ssa.Function, in ssa.Instruction) {
+				if u, ok := in.(*ssa.UnOp); ok {
+					if fl := loadedField(u); fl != nil {
+						read[fl] = true
+					}
+				}
+			})
+		}
+		if len(containers) == 0 {
+			return false
+		}
+		for _, c := range containers {
+			if !read[c] {
+				return false
+			}
+		}
+		return true
+	}
+	ei := errResultIndex(ah)
+	var hitRet ssa.Instruction
+	q := pathQuery{fn: ah,
+		barrier: func(x ssa.Instruction) bool {
+			c, ok := x.(ssa.CallInstruction)
+			return ok && calleeName(c) == "(*larking.io/larking.ruleSelector).getRules"
+		},
+		edgeOK: func(b *ssa.BasicBlock, succ int) bool {
+			ifi := blockIf(b)
+			if ifi == nil {
+				return true
+			}
+			return !readsAll(ifi.Cond) // a complete emptiness test may skip the lookup
+		},
+		target: func(x ssa.Instruction) bool {
+			rt, ok := x.(*ssa.Return)
+			if !ok {
+				return false
+			}
+			if ei >= 0 && (p.returnUnderErrTest(rt) || isFreshError(rt.Results[ei])) {
+				return false
+			}
+			hitRet = x
+			return true
+		}}
+	if w, _ := q.find(); w != nil {
+		r.bad("(*state).appendHandler/selector-always", hitRet.Pos(), "a method can be registered without the service-config rules having been looked up for it (%s): rules that select it are not bound (a test that skips the lookup must read every container of the selector: rules of the bare \"*\" selector are kept at the root)", p.describePath(w))
+	} else {
+		r.ok("(*state).appendHandler/selector-always", ah.Pos(), "every successful registration passes the lookup of the configured rules")
 	}
 }
 
